@@ -81,7 +81,10 @@ def main(v: Verdict) -> None:
     jobs, meta = [], []
     for style in ("GOOGLE", "NUMPYDOC", "REST"):
         pkg = f"recpk{style.lower()[:4]}"
-        d = write_pkg({"__init__.py": "", f"{MOD}.py": concretise(style, shapes), "twina.py": twin_src(style), "twinb.py": twin_src(style), "twinz.py": twin_src(style)}, pkg)
+        # a function of the package file that is called like a module of the package (the docstring library lists the module under that name)
+        pf_params, pf_res = [{"hint": "none", "doc": "str"}, {"hint": "int", "doc": "str"}], {"hint": "int", "doc": "none"}
+        pkgfile = "from __future__ import annotations\n\n\ndef lookup(p1, p2: int) -> int:\n" + docstring(style, pf_params, pf_res) + "\n    ...\n"
+        d = write_pkg({"__init__.py": pkgfile, "lookup.py": "\"\"\"Module lookup.\"\"\"\n\n\ndef other_fn() -> int:\n    ...\n", f"{MOD}.py": concretise(style, shapes), "twina.py": twin_src(style), "twinb.py": twin_src(style), "twinz.py": twin_src(style)}, pkg)
         for pref in ("CODE", "DOCSTRING"):
             for warn in ("WARN", "IGNORE"):
                 jobs.append({"src": d, "opts": Opts(docstyle=style, tsp=pref, tsw=warn), "timeout": 600})
@@ -119,6 +122,16 @@ def main(v: Verdict) -> None:
     for (style, pref, warn), (r, stubs, counts) in sorted(by.items()):
         api = r.api() or {}
         pkg = f"recpk{style.lower()[:4]}"
+        tops = [x for x in stubs.top("lookup") if x[1].kind == "fun"]
+        sc_pf = {"params": [{"hint": "none", "doc": "str"}, {"hint": "int", "doc": "str"}], "res": {"hint": "int", "doc": "none"}, "res2": {"hint": "absent", "doc": "absent"},
+                 "res3": {"hint": "absent", "doc": "absent"}, "unnamed": False, "style": style, "pref": pref, "warn": warn}
+        if len(tops) != 1:
+            o = {"missing": True, "ptys": [], "rtys": [], "nwarn": 0}
+        else:
+            dd = tops[0][1]
+            nw = sum(1 for w in r.warnings if w["level"] == "WARNING" and re.search(re.escape(f"{pkg}/lookup") + r"(?![0-9A-Za-z_/])", w["msg"]))
+            o = {"missing": False, "ptys": [type_term(p["type"]) for p in dd.params], "rtys": [type_term(x["type"]) for x in dd.results], "nwarn": nw}
+        obs.append({"id": f"{style}-{pref}-{warn}#package-file-function", "kind": "fn", "sc": sc_pf, "obs": o})
         params = {p["id"]: p for p in api.get("parameters", [])}
         for mod in ("twina", "twinb", "twinz"):
             ptypes = []
